@@ -16,6 +16,7 @@ Exhaustive enumeration of flowsheet *shapes* on the real `thermosteam.network` o
                 0 = ascending with the label, 1 = descending)
     action  = ('net', permutation of the unit labels)    -> Network.from_units(units in that order)
               history layer only: ('connect', a, oi, b, ii) / ('cut', b, ii) rewire a port first
+              rebuild layer: config ('rb', n, MA, MB, sigma, layout, hs); ('net', p) on A, ('repipe',) pipes the same unit objects as B (unit k in role sigma[k]), ('net', p) on B
 
 The reference model is the edge list computed from the configuration (never read back from the
 library) and my own reachability / strongly-connected-component computation on it.
@@ -42,6 +43,10 @@ ASSUMPTIONS = [
     'a stream runs against the path order iff no occurrence of its source precedes an occurrence of its sink (DESIGN 3b)',
     'set iteration order inside the library is owned through a deterministic __hash__ on the harness subclasses (two schemes), not through memory addresses',
     'no interaction units, no auxiliary units, no disjunctions, no `ends` argument',
+    'state the library might keep between two builds (memo dicts, default arguments, attributes on units) cannot be enumerated or reset by the harness; it is exercised instead: '
+    'c19.rebuild.* builds a network, re-pipes THE SAME unit objects (3 in / 3 out ports each) from simple DAG A into simple DAG B under every relabelling, and builds again in every unit order '
+    '(quick n = 4: 4 base shapes for A and 8 fixed orders); the history layer never merges a state in which a network was built with one in which none was; where `twice` is set every '
+    'network is built twice in a row and the two results must be identical (clause second-build-differs). Unit objects of earlier executions in the same worker process are different objects.',
 ]
 TOLERANCES = {}
 
@@ -331,7 +336,9 @@ class C19(System):
         try: del tmo.network.disjunctions[:]
         except Exception: pass
 
+    _tier = 'thorough'
     def configs(self, tier, seed):
+        self._tier = tier          # set in the master before the pool is forked
         gen = self._gen[tier]
         cfgs = list(gen()) if gen is not None else []
         if cfgs:
@@ -441,6 +448,7 @@ class C19(System):
         if self.rebuild:
             if st.phase == 0: return [('net', tuple(range(n))), ('net', tuple(range(n))[::-1])]     # build on A first (two orders; both reach the same state)
             if st.phase == 1: return [('repipe',)]
+            if n >= 4 and self._tier == 'quick': return [('net', p) for p in fixed_orders(n)]      # thorough: all n!
             return [('net', p) for p in itertools.permutations(range(n))]
         acts = []
         if not self.history or st.model.in_quantifier():
